@@ -1,9 +1,97 @@
 import OdcGeo.Model.C11
 namespace OdcGeo.C11.Drv
-open OdcGeo OdcGeo.IO
+open OdcGeo OdcGeo.IO OdcGeo.C11
+
+def parsePair? (s : String) : Option (Rat × Rat) :=
+  match (s.splitOn ",").mapM parseRat? with
+  | some [a, b] => some (a, b)
+  | _ => none
+
+def parseBBox? (s : String) : Option BBox :=
+  match (s.splitOn ",").mapM parseRat? with
+  | some [l, b, r, t] => some ⟨l, b, r, t⟩
+  | _ => none
+
+def parseMode? (s : String) : Option ResMode :=
+  match s.splitOn ":" with
+  | ["auto"] => some .auto
+  | ["same"] => some .same
+  | ["fit"] => some .fit
+  | ["bad"] => some .badString
+  | ["e", rx, ry] => do
+    let rx ← parseRat? rx; let ry ← parseRat? ry
+    pure (.explicit rx ry)
+  | _ => none
+
+def parseShape? (s : String) : Option ShapeReq :=
+  match s.splitOn ":" with
+  | ["N"] => some .none
+  | ["s", n] => (parseInt? n).map .side
+  | ["x", ny, nx] => do
+    let ny ← parseInt? ny; let nx ← parseInt? nx
+    pure (.exact ny nx)
+  | _ => none
+
+def parseAnchor? (s : String) : Option Anchor :=
+  match s.splitOn ":" with
+  | ["default"] => some .dflt
+  | ["edge"] => some .edge
+  | ["center"] => some .center
+  | ["floating"] => some .floating
+  | ["xy", ax, ay] => do
+    let ax ← parseRat? ax; let ay ← parseRat? ay
+    pure (.xy ax ay)
+  | _ => none
+
+def parseRnd? (s : String) : Option Rounding :=
+  match s.splitOn ":" with
+  | ["N"] => some .none
+  | ["T"] => some (.flag true)
+  | ["F"] => some (.flag false)
+  | ["c", v] => (parseRat? v).map .custom
+  | _ => none
+
+def fmtGrid (g : Grid) : String := s!"{g.ny} {g.nx} {fmtAff g.A}"
+
+def fmtOut : Out → String
+  | .source => "source"
+  | .grid g => fmtGrid g
+
+def parseCand? (s : String) : Option (Nat × Rat) :=
+  match s.splitOn ";" with
+  | [i, v] => do
+    let i ← parseNat? i; let v ← parseRat? v
+    pure (i, v)
+  | _ => none
 
 def run (args : List String) : Option String :=
   match args with
+  | ["out", sc, su, sr, bb, cp, fs, mode, shape, tight, anchor, tol, rnd] => do
+    let sc ← parseBool? sc; let su ← parseBool? su
+    let sr ← parsePair? sr; let bb ← parseBBox? bb; let cp ← parsePair? cp; let fs ← parsePair? fs
+    let mode ← parseMode? mode; let shape ← parseShape? shape; let tight ← parseBool? tight
+    let anchor ← parseAnchor? anchor; let tol ← parseRat? tol; let rnd ← parseRnd? rnd
+    pure (fmtRes fmtOut (computeOutput ⟨sc, su, sr, bb, cp, fs⟩ mode shape tight anchor tol rnd))
+  | ["snap", x0, x1, res, off, tol] => do
+    let x0 ← parseRat? x0; let x1 ← parseRat? x1; let res ← parseRat? res
+    let off ← parseOpt? parseRat? off; let tol ← parseRat? tol
+    pure (fmtRes (fun (p : Rat × Int) => s!"{fmtRat p.1} {p.2}") (snapGrid x0 x1 res off tol))
+  | ["bbox", bb, shape, res, tight, anchor, tol] => do
+    let bb ← parseBBox? bb; let shape ← parseShape? shape
+    let res ← parseOpt? parsePair? res
+    let tight ← parseBool? tight; let anchor ← parseAnchor? anchor; let tol ← parseRat? tol
+    pure (fmtRes fmtGrid (fromBbox bb shape res anchor tight tol))
+  | ["utm", req, epsg, south] => do
+    let req ← (match req with | "utm" => some UtmReq.utm | "utm-n" => some .utmN | "utm-s" => some .utmS | _ => none)
+    let epsg ← parseInt? epsg; let south ← parseBool? south
+    pure (fmtInt (normUtm req epsg south))
+  | ["pick", cands, big] => do
+    let cands ← parseList? parseCand? cands
+    let big ← parseBool? big
+    pure (fmtRes (fun (n : Nat) => toString n) (pickBest cands big))
+  | ["round", x] => do
+    let x ← parseRat? x
+    pure (fmtRat (roundHalfEven x))
   | _ => none
 
 end OdcGeo.C11.Drv
